@@ -647,6 +647,17 @@ Proof.
     repeat split. unfold zlen in *. lia.
 Qed.
 
+Lemma inb_app_inv' i : forall s1 s2, inb i (s1 ++ s2) -> forall j t, i = j ++ t -> length j = length s1 ->
+  inb j s1 /\ inb t s2.
+Proof.
+  induction i as [|x i IH]; intros [|n s1] s2 H j t E Hl.
+  - destruct j; [|discriminate]. simpl in E. subst. split; [constructor | assumption].
+  - destruct j; simpl in Hl; [lia | discriminate].
+  - destruct j; simpl in Hl; [|lia]. simpl in E. subst. split; [constructor | assumption].
+  - destruct j as [|y j]; simpl in Hl; [lia|]. simpl in E. injection E as -> E. simpl in H. inversion H; subst.
+    destruct (IH s1 s2 ltac:(assumption) j t eq_refl ltac:(lia)) as [H1 H2]. split; [constructor|]; assumption.
+Qed.
+
 (* sliding window along one axis: shape = source with that extent reduced by w-1, plus a window axis of extent w;
    element (j, t) reads the source at j with t added to the coordinate of the axis *)
 Lemma sliding_window_axis_spec s w a j t : pos s -> - zlen s <= a < zlen s ->
@@ -667,15 +678,109 @@ Proof.
     destruct (Nat.eqb k u); lia.
   - intros Hi Hl. unfold sliding_window_axes_index, np_sw_index.
     rewrite firstn_app, skipn_app, <- Hl, firstn_all, skipn_all, Nat.sub_diag. cbn [firstn skipn app]. rewrite app_nil_r.
-    cbn [sw_index_loop np_sw_sum]. rewrite Hl, Nat2Z.id. fold (zlen s). rewrite Hk.
     assert (Hzl : zlen j = zlen s) by (unfold zlen; now rewrite Hl).
+    cbn [sw_index_loop np_sw_sum]. fold (zlen j). rewrite Hzl, Hk.
     destruct (set_neg_norm j a (at_neg j a + t) k ltac:(lia) ltac:(now rewrite Hzl)) as [E1 [E2 _]].
     rewrite E1, E2.
     assert (Hsplit : inb j (set_nth k (nth k s 0 - (w - 1)) s) /\ 0 <= t < w).
-    { apply inb_app_inv' in Hi; [|rewrite set_nth_length; lia]. destruct Hi as [H1 H2]. split; [assumption|].
+    { destruct (inb_app_inv' _ _ _ Hi j [t] eq_refl ltac:(rewrite set_nth_length; lia)) as [H1 H2]. split; [assumption|].
       inversion H2; subst. assumption. }
     destruct Hsplit as [Hj Ht]. split.
-    + rewrite <- Hl. rewrite <- (map_seq_set_nth (fun x => x + t) j k ltac:(lia)). apply map_ext. intros u.
-      destruct (Nat.eqb k u); lia.
+    + rewrite <- (map_seq_set_nth (fun x => x + t) j k ltac:(lia)). apply map_ext_in. intros u Hu.
+      apply in_seq in Hu. rewrite app_nth1 by lia. destruct (Nat.eqb k u); lia.
     + apply (inb_set_nth_change j s k _ _ Hkl Hj). pose proof (inb_set_nth_bound _ _ _ _ Hkl Hj). lia.
+Qed.
+
+(* expand along one axis with spacing q >= 0 *)
+Lemma expand_axis_spec s a q i : pos s -> 0 <= q -> - zlen s <= a < zlen s ->
+  exists k, np_axis a (zlen s) = Some k
+  /\ shape_expand s [a] [q] = Val (set_nth k (nth k s 0 + (nth k s 0 - 1) * q) s)
+  /\ doc_expand_shape1 s a q = Some (set_nth k (nth k s 0 + (nth k s 0 - 1) * q) s)
+  /\ (inb i (set_nth k (nth k s 0 + (nth k s 0 - 1) * q) s) ->
+      doc_expand_index1 i a q = Some (expand_index s i [a] [q])
+      /\ forall j, expand_index s i [a] [q] = Some j -> inb j s).
+Proof.
+  intros Hp Hq Ha. destruct (normalize_axis_np a (zlen s) Ha) as [k [Hk [Hn Hlt]]]. exists k.
+  assert (Hkl : (k < length s)%nat) by (unfold zlen in Hlt; lia).
+  split; [assumption|]. split; [|split].
+  - unfold shape_expand. cbn [normalize_axes]. rewrite Hn. cbn [expand_shape_loop].
+    rewrite set_neg_nonneg, at_neg_nonneg by lia. now rewrite Nat2Z.id.
+  - unfold doc_expand_shape1. now rewrite Hk.
+  - intros Hi. assert (Hl : length i = length s) by (rewrite (inb_length _ _ Hi); now apply set_nth_length).
+    assert (Hzl : zlen i = zlen s) by (unfold zlen; now rewrite Hl).
+    unfold expand_index, doc_expand_index1. cbn [normalize_axes]. rewrite Hn, Hzl, Hk. rewrite <- Hl, firstn_all.
+    cbn [expand_index_loop]. rewrite set_neg_nonneg, at_neg_nonneg by lia. rewrite Nat2Z.id.
+    pose proof (inb_set_nth_bound _ _ _ _ Hkl Hi) as Hb. set (x := nth k i 0) in *.
+    pose proof (Z.mod_pos_bound x (q + 1) ltac:(lia)) as Hm.
+    destruct (Z.ltb_spec 0 (x mod (q + 1))) as [Hpos|Hz].
+    + replace (x mod (q + 1) =? 0) with false by lia. split; [reflexivity|]. intros j Hj. discriminate.
+    + replace (x mod (q + 1) =? 0) with true by lia. split; [reflexivity|]. intros j Hj. injection Hj as <-.
+      apply (inb_set_nth_change i s k _ _ Hkl Hi).
+      pose proof (Z.div_mod x (q + 1) ltac:(lia)) as Hd.
+      split; [apply Z.div_pos; lia|]. apply Z.div_lt_upper_bound; [lia|]. nia.
+Qed.
+
+(* diagonal of a matrix, offset >= 0, axes (0,1) or (1,0) *)
+Lemma diagonal_2d_spec n1 n2 offset t : 1 <= n1 -> 1 <= n2 -> 0 <= offset ->
+  0 <= t < np_diag_len n1 n2 offset ->
+  shape_diagonal [n1; n2] offset 0 1 = Val [np_diag_len n1 n2 offset]
+  /\ np_diagonal_shape [n1; n2] offset 0 1 = Some [np_diag_len n1 n2 offset]
+  /\ np_diagonal_index 2 [t] offset 0 1 = Some (diagonal_index 2 [t] offset 0 1)
+  /\ inb (diagonal_index 2 [t] offset 0 1) [n1; n2].
+Proof.
+  intros H1 H2 Ho Ht.
+  assert (Hlen : np_diag_len n1 n2 offset = Z.max 0 (Z.min n1 (n2 - offset)))
+    by (unfold np_diag_len; now replace (0 <=? offset) with true by lia).
+  rewrite Hlen in *.
+  split; [|split; [|split]].
+  - unfold shape_diagonal. cbn; change (Pos.to_nat 1) with 1%nat; cbv iota. destruct (Z.ltb_spec offset 0); [lia|].
+    destruct (Z.ltb_spec 0 offset).
+    + destruct (Z.ltb_spec n1 (n2 - offset)); do 2 f_equal; lia.
+    + destruct (Z.ltb_spec n1 n2); do 2 f_equal; lia.
+  - unfold np_diagonal_shape. cbn; change (Pos.to_nat 1) with 1%nat; cbv iota. now rewrite Hlen.
+  - unfold np_diagonal_index, diagonal_index. cbn; change (Pos.to_nat 1) with 1%nat; cbv iota. rewrite Z.min_r, Z.max_l by lia. now rewrite Z.sub_0_r.
+  - unfold diagonal_index. cbn; change (Pos.to_nat 1) with 1%nat; cbv iota. repeat constructor; lia.
+Qed.
+
+(* ------------------------------------------------------------------------------------------ *)
+(* compress = take of the true positions                                                       *)
+
+Lemma filter_map_comm {A B} (f : B -> bool) (g : A -> B) l : filter f (map g l) = map g (filter (fun x => f (g x)) l).
+Proof. induction l as [|x l IH]; simpl; [reflexivity|]. rewrite IH. now destruct (f (g x)). Qed.
+
+Lemma nonzero_pos_filter c : forall k,
+  nonzero_pos (Z.of_nat k) c = map Z.of_nat (filter (fun j => negb (nth (j - k) c 0 =? 0)) (seq k (length c))).
+Proof.
+  induction c as [|x t IH]; intros k; [reflexivity|].
+  cbn [nonzero_pos length seq filter]. rewrite Nat.sub_diag. change (nth 0 (x :: t) 0) with x.
+  replace (Z.of_nat k + 1) with (Z.of_nat (S k)) by lia. rewrite IH.
+  assert (E : filter (fun j => negb (nth (j - k) (x :: t) 0 =? 0)) (seq (S k) (length t))
+            = filter (fun j => negb (nth (j - S k) t 0 =? 0)) (seq (S k) (length t))).
+  { apply filter_ext_in. intros j Hj. apply in_seq in Hj. replace (j - k)%nat with (S (j - S k)) by lia. reflexivity. }
+  rewrite E. destruct (x =? 0); reflexivity.
+Qed.
+
+Lemma nonzero_pos_spec c : nonzero_pos 0 c = np_true_positions c.
+Proof.
+  change 0 with (Z.of_nat 0). rewrite nonzero_pos_filter. unfold np_true_positions, zrange, zs, zlen.
+  rewrite Nat2Z.id, filter_map_comm. f_equal. apply filter_ext. intros j.
+  unfold znth. now rewrite Nat2Z.id, Nat.sub_0_r.
+Qed.
+
+Lemma true_positions_bound c : Forall (fun x => 0 <= x < zlen c) (np_true_positions c).
+Proof.
+  apply Forall_forall. intros x Hx. unfold np_true_positions in Hx. apply filter_In in Hx as [Hx _].
+  unfold zrange, zlen in *. apply in_zs in Hx. lia.
+Qed.
+
+Lemma compress_axis_spec s c a i : 0 <= a < zlen s -> zlen c <= nth (Z.to_nat a) s 0 -> nth (Z.to_nat a) s 0 <= 2 ^ 64 ->
+  shape_compress_axis s c a = set_nth (Z.to_nat a) (zlen (np_true_positions c)) s
+  /\ np_take_axis_shape s (np_true_positions c) a = Some (set_nth (Z.to_nat a) (zlen (np_true_positions c)) s)
+  /\ (inb i (set_nth (Z.to_nat a) (zlen (np_true_positions c)) s) ->
+      np_take_axis_index s (np_true_positions c) i a = Some (compress_axis_index c i a) /\ inb (compress_axis_index c i a) s).
+Proof.
+  intros Ha Hc Hw. unfold shape_compress_axis, compress_axis_index. rewrite nonzero_pos_spec.
+  destruct (take_axis_shape_spec s (np_true_positions c) a Ha) as [H1 H2]. split; [assumption|]. split; [assumption|].
+  intros Hi. apply take_axis_elem_spec; auto.
+  eapply Forall_impl; [|apply true_positions_bound]. cbv beta. intros x Hx. lia.
 Qed.
